@@ -40,3 +40,17 @@ package kv
 //@ trusted
 //@ modifies nothing
 //@ ensures err == nil ==> it != nil
+
+// A write batch as a ghost set `present` of the keys it makes present (Put) or absent
+// (Delete) on top of the database: the last operation on a key wins. Values are not
+// modelled. A failed operation leaves the set unspecified.
+//
+//@ func WriteBatch.Put(recv, key, value) (err)
+//@ trusted
+//@ modifies ghset(present, recv)
+//@ ensures err == nil ==> forall k string :: ghset(present, recv, k) <==> (k == key || old(ghset(present, recv, k)))
+
+//@ func WriteBatch.Delete(recv, key) (err)
+//@ trusted
+//@ modifies ghset(present, recv)
+//@ ensures err == nil ==> forall k string :: ghset(present, recv, k) <==> (k != key && old(ghset(present, recv, k)))
